@@ -202,6 +202,16 @@ class Predict:
     line: Optional[int] = None
 
 
+def _mentions_floor(e) -> bool:
+    if isinstance(e, tuple):
+        if len(e) >= 2 and e[0] in ("call", "mcall") and ("floor" in (e[1], e[2] if len(e) > 2 else None) or "trunc" in (e[1],) or "narrow_int" == e[1]):
+            return True
+        return any(_mentions_floor(x) for x in e)
+    if isinstance(e, list):
+        return any(_mentions_floor(x) for x in e)
+    return False
+
+
 @dataclass
 class StepPlan:
     lang: str
@@ -277,6 +287,13 @@ class StepExec:
             if f == "narrow_float" and len(e[2]) == 1:
                 msg = (f"the time arithmetic `{cppast.show(e[2][0])[:60]}` is narrowed to single precision: beyond about 2^24 steps' worth of time the step "
                        f"count and remainder are computed from a rounded span, so steps overshoot the target or exceed the configured maximum")
+                if msg not in self.plan.violations:
+                    self.plan.violations.append(msg)
+                return self.num(e[2][0])
+            if f == "narrow_int" and len(e[2]) == 1:
+                msg = (f"`{cppast.show(e[2][0])[:60]}` is cast to an integer type of fewer than 64 bits: a move of more than 2^31 (2^32) whole steps -- a long gap "
+                       f"with a small configured maximum -- is out of range for it, the loop then takes none (or the wrong number) of the whole steps and the "
+                       f"remainder step is far longer than the configured maximum")
                 if msg not in self.plan.violations:
                     self.plan.violations.append(msg)
                 return self.num(e[2][0])
@@ -495,7 +512,12 @@ class StepExec:
         if k == "static_assert":
             return
         if k == "decl":
-            _, name, init, _ = s
+            _, name, init, dty = s
+            if init is not None and self.lang == "cpp" and dty and cppast.is_narrow_int(dty) and _mentions_floor(self.resolve(init)):
+                msg = (f"the step count `{name}` is held in `{dty}` (fewer than 64 bits): a move of more than 2^31 (2^32) whole steps is out of range for it, "
+                       f"the whole steps are then not taken and the remainder step is far longer than the configured maximum")
+                if msg not in self.plan.violations:
+                    self.plan.violations.append(msg)
             if init is not None:
                 self.scan_calls(init)
                 v = self.num(self.resolve(init))
@@ -561,6 +583,11 @@ class StepExec:
                 if d[0] == "decl":
                     self.env[d[1]] = ("loopvar",)
                     cvar, c0 = d[1], d[2]
+                    if self.lang == "cpp" and len(d) > 3 and d[3] and cppast.is_narrow_int(d[3]):
+                        msg = (f"the k-loop counter `{d[1]}` is a `{d[3]}` (fewer than 64 bits): it cannot count a move of more than 2^31 (2^32) whole steps "
+                               f"(it overflows or never reaches the bound)")
+                        if msg not in self.plan.violations:
+                            self.plan.violations.append(msg)
             if cond is not None and cond[0] == "bin" and cond[1] in ("<", "!=", "<="):
                 bound = self.num(self.resolve(cond[3]))
                 if cond[1] == "<=":
